@@ -101,6 +101,69 @@ def chunk_stress(rej_expr, flags, thread, count):
                 rej_expr, json.dumps(names(flags)), run)
 
 
+SITE_KINDS = ["close-error", "close-return", "close-break", "gc", "msgh", "coroutine", "index", "arith", "tostring", "load", "goto-close"]
+
+
+def site_prelude(expr, args):
+    """site(tag): at the place where it is called, record the flags in force and call f under pcall."""
+    return ("local f = %s\nlocal A = table.pack(%s)\n"
+            "local function site(tag)\n local fl = runtime.context().flags\n local ok, e = pcall(f, table.unpack(A, 1, A.n))\n"
+            " emit('site', tag, fl, ok, type(e) == 'string' and e or type(e))\nend\n") % (expr, args)
+
+
+def chunk_site(expr, args, ctxdef, kind):
+    """f is called from a place that belongs to the body of runtime.callcontext(ctxdef, body) without being
+    lexically a plain call in it: a pending __close handler (context ends by error / return / break / goto), a __gc
+    finaliser of a value created there, an xpcall message handler, a coroutine body, a metamethod, load'ed code."""
+    body = {
+        "close-error": "local x <close> = setmetatable({}, {__close = function() site('close-error') end}) error('boom')",
+        "close-return": "local x <close> = setmetatable({}, {__close = function() site('close-return') end}) return 'fin'",
+        "close-break": "for i = 1, 3 do local x <close> = setmetatable({}, {__close = function() site('close-break') end}) break end return 'fin'",
+        "goto-close": "do local x <close> = setmetatable({}, {__close = function() site('goto-close') end}) goto out end ::out:: return 'fin'",
+        "gc": "setmetatable({}, {__gc = function() site('gc') end}) return 'fin'",
+        "msgh": "xpcall(function() error('x') end, function(m) site('msgh') return m end) return 'fin'",
+        "coroutine": "local co = coroutine.create(function() site('coroutine') end) coroutine.resume(co) return 'fin'",
+        "index": "local _ = setmetatable({}, {__index = function() site('index') end}).k return 'fin'",
+        "arith": "local _ = setmetatable({}, {__add = function() site('arith') return 1 end}) + 1 return 'fin'",
+        "tostring": "tostring(setmetatable({}, {__tostring = function() site('tostring') return 's' end})) return 'fin'",
+        "load": "load('local site = ... site(\\'load\\')')(site) return 'fin'",
+    }[kind]
+    return (site_prelude(expr, args) +
+            "local ctx, x = runtime.callcontext(%s, function()\n %s\nend)\n"
+            "emit('ctx', tostring(ctx), type(x) == 'string' and x or type(x))\n"
+            "collectgarbage() collectgarbage()\nemit('end', runtime.context().flags)\n") % (ctxdef, body)
+
+
+CORO_SHAPES = {
+    # shape -> (main program around the coroutine `co`, must the predicate hold on HEAD's design?)
+    "same-depth": "co() emit('between', runtime.context().flags) co()",
+    "inside-body": None,
+    "pcall-inside-coroutine": None,
+    "resumed-from-deeper": "co() runtime.callcontext({flags=\"cpusafe\"}, function() co() end)",
+    "abandoned": "co() co = nil runtime.callcontext(CTXDEF, function() site('main-own') end)",
+    "resumer-exits-pcall": "pcall(co) co()",
+    "resumer-exits-callcontext": "runtime.callcontext({}, function() co() end) co()",
+    "resumed-from-shallower": "runtime.callcontext({flags=\"cpusafe\"}, function() co() end) co()",
+    "resumer-exits-xpcall": "xpcall(co, print) co()",
+}
+# shapes in which a coroutine is suspended inside an open CallContext frame and its resumer exits a CallContext frame
+# (pcall, xpcall, runtime.callcontext) before resuming it: known finding C08-context-stack-shared-by-coroutines
+CORO_KNOWN_SHAPES = ("resumer-exits-pcall", "resumer-exits-callcontext", "resumed-from-shallower", "resumer-exits-xpcall")
+
+
+def chunk_coro(expr, args, ctxdef, shape):
+    pre = site_prelude(expr, args)
+    cobody = ("local co = coroutine.wrap(function()\n runtime.callcontext(%s, function()\n  site('before')\n  coroutine.yield()\n  site('after')\n end)\n"
+              " emit('co-out')\nend)\n") % ctxdef
+    if shape == "inside-body":
+        return (pre + "local ctx = runtime.callcontext(%s, function()\n local co = coroutine.wrap(function() site('before') coroutine.yield() site('after') end)\n"
+                " co() pcall(function() end) co()\n site('body')\nend)\nemit('ctx', tostring(ctx))\nemit('end', runtime.context().flags)\n") % ctxdef
+    if shape == "pcall-inside-coroutine":
+        return (pre + "local ctx = runtime.callcontext(%s, function()\n local co = coroutine.wrap(function() pcall(function() site('before') coroutine.yield() site('after') end) end)\n"
+                " pcall(co) site('body') co()\n site('body')\nend)\nemit('ctx', tostring(ctx))\nemit('end', runtime.context().flags)\n") % ctxdef
+    return pre + cobody + CORO_SHAPES[shape].replace("CTXDEF", ctxdef) + "\nemit('end', runtime.context().flags)\n"
+
+
 def parse_trace(tr):
     """T: field -> list of events, each a list of python values (strings decoded)."""
     evs = []
@@ -314,6 +377,33 @@ def run(tier, seed):
     if quick:
         stress_cases = [c for k, c in enumerate(stress_cases) if k % 3 == (k // 3 + rot) % 3][:12]
     ck.cov["stress_cases"] = len(stress_cases)
+    # other spellings of "a call made by the code of a flagged context": __close handlers pending when the context ends,
+    # __gc finalisers of its values, xpcall message handlers, coroutine bodies, metamethods, load'ed code; and coroutines
+    # that yield inside / are resumed around a flagged context.  For every function the flag set blocks, plus the
+    # file-changing functions that are compliant but guarded by safeio.
+    site_cases = []   # dicts: d, F (flags the def requires), ctxdef, family 'site'|'coro', kind, ti
+    io_guarded = {"_G.io.open": 2, "_G.os.rename": 4, "_G.os.remove": 1, "_G.io.lines": 1, "_G.os.tmpname": 0, "_G.io.tmpfile": 0,
+                  "_G.io.output": 1, "_G.io.input": 1}
+    fsets = [4] if quick else [4, 8, 5, 15]
+    for F in fsets:
+        defs = [(F, "{flags=%s}" % json.dumps(names(F))), (F | 2, "{flags=%s, kill={cpu=100000000}}" % json.dumps(names(F)))]
+        for d in dyn:
+            blk = (F & ~d["flags"]) != 0
+            if not blk and not ((F & 4) and d["expr"] in io_guarded):
+                continue
+            tis = [io_guarded.get(d["expr"], 1)] if quick else sorted({io_guarded.get(d["expr"], 1), 1, 3})
+            for Feff, cdef in defs:
+                for ti in tis:
+                    for kind in SITE_KINDS:
+                        if d["go"] in DANGEROUS and kind == "gc" and "kill" not in cdef:
+                            continue   # known finding below: the gate is not in force there, os.exit would end the harness
+                        site_cases.append({"d": d, "F": Feff, "ctxdef": cdef, "family": "site", "kind": kind, "ti": ti})
+                    for shape in CORO_SHAPES:
+                        if d["go"] in DANGEROUS and shape in CORO_KNOWN_SHAPES:
+                            continue
+                        site_cases.append({"d": d, "F": Feff, "ctxdef": cdef, "family": "coro", "kind": shape, "ti": ti})
+    ck.cov["call_site_cases"] = sum(1 for c in site_cases if c["family"] == "site")
+    ck.cov["coroutine_shape_cases"] = sum(1 for c in site_cases if c["family"] == "coro")
     # the Go API path (RuntimeContextDef.RequiredFlags through Thread.CallContext) for functions reachable by plain indexing
     api_cases = []
     for d in dyn:
@@ -335,7 +425,11 @@ def run(tier, seed):
         lines.append("a%d %s flags=%d" % (i, src.encode().hex(), R))
     for i, (d, R, thread, cnt) in enumerate(stress_cases):
         lines.append("s%d %s" % (i, chunk_stress(d["expr"], R, thread, cnt).encode().hex()))
-    ck.log("cases: %d via runtime.callcontext, %d via the Go API" % (len(cases), len(api_cases)))
+    for i, c in enumerate(site_cases):
+        mk = chunk_site if c["family"] == "site" else chunk_coro
+        lines.append("k%d %s" % (i, mk(c["d"]["expr"], TUPLES[c["ti"]], c["ctxdef"], c["kind"]).encode().hex()))
+    ck.log("cases: %d via runtime.callcontext, %d via the Go API, %d stress, %d call sites / coroutine shapes" %
+           (len(cases), len(api_cases), len(stress_cases), len(site_cases)))
     # the harness process keeps every runtime it created alive (coroutine goroutines), so feed it in slices;
     # slices run in parallel, each in its own sentinel directory
     from concurrent.futures import ThreadPoolExecutor
@@ -389,9 +483,82 @@ def run(tier, seed):
             reported.add(cls)
             ck.violation(summary, rep)
 
+    k_coro = next((k for k in ck.known if k.get("status") == "open" and k.get("match", {}).get("family") == "coro"), None)
+    k_gc = next((k for k in ck.known if k.get("status") == "open" and k.get("match", {}).get("family") == "site" and k["match"].get("kind") == "gc"), None)
+
+    def eval_site(c, l, src):
+        """Predicate: while the body of callcontext(def requiring F) runs - and in every handler that belongs to it -
+        runtime.context().flags includes F, functions that have not declared F fail with the gate's error, and the
+        sentinel directory is untouched."""
+        d, F, fam, kind = c["d"], c["F"], c["family"], c["kind"]
+        blocked = (F & ~d["flags"]) != 0
+        ck.case("%s|%s|%s|%s|%d" % (fam, kind, d["expr"], c["ctxdef"], c["ti"]), nontrivial=True)
+        ck.count("%s:%s" % (fam, kind))
+        rep = {"kind": "Go!=S", "engine": "flags", "function": d["expr"], "go_function": d["go"], "declared": d["flags"], "required": F,
+               "required_names": names(F), "context_def": c["ctxdef"], "form": fam + ":" + kind, "args": TUPLES[c["ti"]], "lua": src, "impl": l[:1500],
+               "predicate": "inside the body of runtime.callcontext(def) and its handlers: flags in force include the def's flags, "
+                            "non-compliant functions fail with 'missing flags', sentinel untouched"}
+        f = l.split(" ")
+        if len(f) < 2 or f[1] in ("CRASH", "HANG"):
+            report("%s called from %s:%s under %s %s the harness process" % (d["expr"], fam, kind, c["ctxdef"], "crashed" if "CRASH" in l else "hung"), rep, d)
+            return
+        fields = {x[0]: x[2:] for x in f[2:] if len(x) > 1 and x[1] == ":"}
+        evs = parse_trace(fields.get("T", "-"))
+        dg = fields.get("S")
+        nchild = 0
+        if dg and ",children=" in dg:
+            dg, nc = dg.split(",children=")
+            nchild = int(nc)
+        sites = [e for e in evs if e and e[0] == "site"]
+        fails = []
+        want = "missing flags: " + names(F & ~d["flags"])
+        for e in sites:
+            tag, fl, ok, msg = (e + [None] * 5)[1:5]
+            seen = set((fl or "").split())
+            if fam == "coro" and tag == "main-own":
+                pass
+            if not set(names(F).split()) <= seen:
+                fails.append((tag, "flags in force are '%s', expected at least '%s'" % (fl, names(F))))
+            elif blocked and not (ok is False and isinstance(msg, str) and "missing flags: " in msg and
+                                  set(names(F & ~d["flags"]).split()) <= set(msg.split("missing flags: ")[1].split())):
+                fails.append((tag, "expected the error '%s', got %r %r" % (want, ok, msg)))
+        expected_sites = {"site": 1, "coro": {"abandoned": 2, "inside-body": 3, "pcall-inside-coroutine": 4}.get(kind, 2)}[fam]
+        if f[1] != "ok" or len(sites) < expected_sites:
+            if fam == "site" and kind == "gc" and f[1] == "ok":
+                ck.count("gc-finaliser-did-not-run")
+            else:
+                ck.count("site-family:program-incomplete")
+                if not fails and not (fam == "coro" and kind in CORO_KNOWN_SHAPES):
+                    fails.append(("-", "the program did not reach all its call sites (status %s, %d of %d sites; error %s)" %
+                                  (f[1], len(sites), expected_sites,
+                                   bytes.fromhex(fields["E"]).decode("utf-8", "replace")[:100] if fields.get("E", "-") not in ("-", None) else None)))
+        if (F & 4) and dg is not None and base_digest is not None and dg != base_digest:
+            fails.append(("sentinel", "the sentinel directory changed"))
+        if (F & 4) and nchild:
+            fails.append(("sentinel", "%d child process(es) started" % nchild))
+        if not fails:
+            return
+        # narrow matching of the two recorded defects: by the SHAPE of the history, and only for the call site that shape affects
+        if fam == "coro" and k_coro is not None and kind in CORO_KNOWN_SHAPES and all(t in ("after", "sentinel") for t, _ in fails):
+            ck.known_finding(k_coro)
+            known_hits[k_coro["id"]] = known_hits.get(k_coro["id"], 0) + 1
+            return
+        if fam == "site" and kind == "gc" and k_gc is not None and "kill" not in c["ctxdef"] and all(t in ("gc", "sentinel") for t, _ in fails):
+            ck.known_finding(k_gc)
+            known_hits[k_gc["id"]] = known_hits.get(k_gc["id"], 0) + 1
+            return
+        rep["failed"] = fails
+        rep["events"] = evs
+        report("%s called from %s (%s) of runtime.callcontext(%s): %s" %
+               (d["expr"], {"site": "a " + kind + " handler/site", "coro": "a coroutine, shape " + kind}[fam], fails[0][0], c["ctxdef"], fails[0][1]), rep, d)
+
     for i, l in enumerate(outs):
         if i >= len(lines):
             break
+        if i >= len(cases) + len(api_cases) + len(stress_cases):
+            c = site_cases[i - len(cases) - len(api_cases) - len(stress_cases)]
+            eval_site(c, l, bytes.fromhex(lines[i].split(" ")[1]).decode())
+            continue
         if i >= len(cases) + len(api_cases):
             d, R, thread, cnt = stress_cases[i - len(cases) - len(api_cases)]
             src = bytes.fromhex(lines[i].split(" ")[1]).decode()
